@@ -1,18 +1,33 @@
 """C04 Infinite phase screen rows follow the exact conditional von Karman law.
 
 E1 x E2: every configuration of the bounded lattice (variant, size, stencil depth, atmosphere)
-is constructed with an injected generator; then EVERY pixel of the working array is set to a
-unit image (zero innovation) and add_row() is called -> one column of the screen response L,
-and every unit innovation vector is fed on a zero screen -> one column of B.  The new row is
-read back through the documented state (`_scrn` row 0, `.scrn`).  The identities
+is constructed with an injected generator (public `random_seed=`); then EVERY pixel of the working
+array is set to a unit image (zero innovation) and add_row() is called -> one column of the screen
+response L, and every unit innovation vector is fed on a zero screen -> one column of B.  The
+identities
 
     A Czz = Cxz,      A Czz A^T + B B^T = Cxx
 
 are verified on the extracted operators against an independent float64 von Karman covariance
 at positions recomputed from the documented geometry, which decides the conditional law for
 every stencil content and every innovation vector of that configuration (affinity is itself
-tested on the basis).
+tested on the basis, and on irrational / wide-range screens).
+
+Setting the working array needs the private attribute `_scrn`.  That protocol (the attribute exists,
+an assigned array is honoured, row 0 is the newest row, `.scrn` is its leading block, the injected
+generator is asked for the same number of values in every step) is CALIBRATED on the library under
+test first; when it does not hold the dependent clauses are skipped and counted
+(`state_injection_not_claimed`, `innovation_probe_not_claimed`), never reported.  The `history:` cases
+use the public API only (generator / patched default_rng, `.scrn`): the whole life of a screen
+(construction + K rows) is linear in the stream of unit normals it consumes, the operators are
+extracted from the unit vectors of that stream, and the innovations of all rows must be white, uncorrelated
+with the initial screen and have the reference conditional covariance.
 """
+import json
+import os
+import subprocess
+import sys
+
 import numpy
 
 from mc import Out, Case
@@ -23,35 +38,53 @@ PROPERTY = "C04"
 LEVEL = "exploration"
 TECHNIQUE = ("bounded exhaustive enumeration of screen configurations (variant x size x stencil depth x "
              "atmosphere) with basis exhaustion of the affine row map: every pixel of the working array "
-             "and every innovation unit vector is pushed through add_row() with an injected Generator")
-RULE = ("cases = {vk} x nx x n_columns(<=nx) x atmospheres  +  {fried} x requested nx x "
+             "and every innovation unit vector is pushed through add_row() with an injected Generator; "
+             "whole-life histories (construction + up to 70 rows) as linear maps of the consumed normal stream")
+RULE = ("cases = {vk} x nx x n_columns x atmospheres  +  {fried} x requested nx x "
         "stencil_length_factor x atmospheres; each case extracts the full operators L (new row <- "
         "screen) and B (new row <- innovation); a case is non-trivial when construction succeeds "
         "(LinAlgError at construction is outside the property and counted in construction_failed)")
 ASSUMPTIONS = [
-    "atmosphere lattice of four (quick) or seven (thorough) (pixel_scale, r0, L0) triples and the size bound; values outside are "
-    "not covered",
+    "atmosphere lattice of four (quick; the other three at spot configurations only) or seven (thorough) (pixel_scale, r0, L0) "
+    "triples and the size bound; values outside are not covered",
     "identities are decided for all stencil contents / innovations of an enumerated configuration by "
-    "affinity of add_row, which is tested on the basis (zero -> zero, pair and dense superpositions)",
-    "tolerance 1e-5*B(0) on the two covariance identities (the library casts separations to float32; "
-    "measured residuals <= 3e-7*B(0)); 1e-10 on exact algebraic clauses",
+    "affinity of add_row, which is tested on the basis (zero -> zero, pair and dense superpositions, irrational "
+    "screens of amplitude 1e2 and 1e4)",
+    "tolerance max(1e-5, eps*cond(Czz))*B(0) on the covariance identities (the library casts separations to float32; "
+    "measured residuals <= 3e-7*B(0)); 0.25 / 0.3 of the optimal innovation variance on the same identities "
+    "in innovation units (measured <= 0.04 / 0.07); 1e-10 on exact algebraic clauses",
     "the reference covariance is the closed-form von Karman covariance in float64 "
     "(mc/refmodels/vk_cov.py, self-tested against its own power spectrum in setup())",
+    "the working array is set through the private attribute `_scrn`; the protocol is calibrated on the library "
+    "under test and the dependent clauses are skipped (counted in state_injection_not_claimed) when it does not hold",
     "stationarity of the joint statistics is a consequence of the two identities (plus C05's "
-    "fixed-point clause) and is not separately sampled",
+    "fixed-point clause) and of the whiteness of the innovations over a history, which is decided for the "
+    "history: configurations only",
 ]
 ENGINES = ["E1-product-enumeration", "E2-basis-exhaustion", "E5-environment-answers"]
 
-TOL_COV = 1e-5      # relative to B(0)
-TOL_ALG = 1e-10
+TOL_COV = 1e-5      # relative to B(0); unchanged library measures <= 3e-7 (float32 separations): > 30x margin
+TOL_ALG = 1e-10     # exact algebra in float64: measured <= 1e-15
+# The same identities weighted with Czz^-1, i.e. in units of the optimal innovation variance (the natural scale:
+# B(0) is dominated by piston-like modes that cancel in a new row).  The unchanged library measures <= 0.040
+# (prediction) and <= 0.066 (innovation) over the thorough lattice, both at the near-Kolmogorov atmosphere
+# (0.1, 1, 1000) where the float32 separations cost most; 0.25 / 0.3 leave a factor > 4.5.
+TOL_PRED = 0.25
+TOL_INNOV = 0.3
 NEGLIGIBLE_WEIGHT = 1e-6   # a stencil pixel may have an exactly-zero weight only if its optimal weight is below this
+EPS = float(numpy.finfo(float).eps)
 
 ATMOSPHERES = [(0.1, 0.2, 25.0), (0.5, 0.1, 10.0), (0.05, 0.2, 100.0), (0.25, 0.15, 5.0)]
-# thorough only: pixel larger than L0/2, very fine sampling of a large outer scale, near-Kolmogorov
+# pixel larger than L0/2, very fine sampling of a large outer scale, near-Kolmogorov (whole lattice in the thorough
+# tier, spot configurations in the quick tier)
 ATMOSPHERES_MORE = [(1.0, 0.1, 2.0), (0.02, 0.3, 50.0), (0.1, 1.0, 1000.0)]
 
 
 R0_EXTREMES = [(0.1, 1000.0, 10.0), (0.25, 400.0, 25.0), (0.1, 30.0, 5.0), (0.1, 0.002, 25.0), (0.05, 1e-4, 100.0)]
+
+ILL_CONDITIONED = [(0.01, 0.2, 1e4), (0.001, 0.2, 1e3), (0.0005, 0.1, 1e3), (0.002, 0.2, 300.0)]
+
+DEFAULT_DEPTH = {"vk": 2, "fried": 4}       # documented defaults of n_columns / stencil_length_factor
 
 
 def _factors(tier):
@@ -75,211 +108,142 @@ def _fried_sizes(tier):
     return list(range(1, 11)) + [17, 18] if tier == "quick" else list(range(1, 19)) + [33, 34, 65]
 
 
+def _big(tier):
+    vk = ((350, 2),) if tier == "quick" else ((350, 2), (520, 1), (300, 3))
+    fried = ((100, 1), (200, 4)) if tier == "quick" else ((100, 1), (100, 4), (129, 1), (129, 4), (200, 1), (200, 4))
+    return vk, fried
+
+
+# whole-life histories: (variant, requested nx, depth, seed mode, rows added, atmosphere index)
+HISTORIES = [("vk", 2, 1, "gen", 70, 0), ("vk", 2, 2, "int", 70, 1), ("vk", 3, 2, "none", 9, 0), ("vk", 3, 1, "gen", 70, 2),
+             ("vk", 4, 2, "int", 9, 3), ("fried", 2, 1, "gen", 70, 0), ("fried", 3, 1, "int", 70, 1), ("fried", 5, 1, "gen", 8, 0),
+             ("fried", 3, 2, "none", 9, 2), ("fried", 2, 4, "int", 12, 0), ("fried", 5, 1, "none", 7, 3)]
+
+CONVENTIONS = ["int_scalars:vk", "int_scalars:fried", "float32_pixel_scale:vk", "float32_scalars:fried",
+               "zero_d_array_scalars:vk", "zero_d_array_scalars:fried", "numpy_int64_size:vk", "numpy_int64_size:fried",
+               "positional_depth:vk", "positional_depth:fried", "default_depth:vk", "default_depth:fried",
+               "default_depth_size_1:vk"]
+
+
 def BOUNDS(tier):
+    vkb, frb = _big(tier)
     return {"vk_nx": _vk_sizes(tier), "vk_n_columns": _ncols(tier),
             "fried_requested_nx": _fried_sizes(tier),
             "fried_internal_nx": sorted(set(geom.allowed_size(n)[0] for n in _fried_sizes(tier))),
             "fried_stencil_length_factor": _factors(tier),
             "atmospheres(pixel_scale,r0,L0)": _atm(tier), "r0_extremes(pixel_scale,r0,L0)": R0_EXTREMES,
-            "tolerances": {"covariance_identities_rel_B0": TOL_COV, "algebraic": TOL_ALG}}
+            "spot_atmospheres_quick(pixel_scale,r0,L0)": ATMOSPHERES_MORE,
+            "big_vk(nx,n_columns)": list(vkb), "big_fried(requested nx,factor)": list(frb),
+            "largest_internal_size": {"vk": max(n for n, _ in vkb), "fried": max(geom.allowed_size(n)[0] for n, _ in frb)},
+            "histories(variant,nx,depth,seed mode,rows,atmosphere)": [list(h) for h in HISTORIES],
+            "calling_conventions": CONVENTIONS, "numba_threads_case": 4,
+            "tolerances": {"covariance_identities_rel_B0": "max(%g, eps*cond(Czz))" % TOL_COV, "algebraic": TOL_ALG,
+                           "prediction_error_excess_rel_innovation_variance": TOL_PRED,
+                           "innovation_covariance_rel_innovation_variance": TOL_INNOV}}
+
+
+def _tag(atm):
+    return "ps=%g,r0=%g,L0=%g" % tuple(atm)
 
 
 def cases(tier):
+    seen = set()
+
+    def lattice(variant, nx, depth, atm, nontrivial=False):
+        cid = ("vk:nx=%d:nc=%d:%s" if variant == "vk" else "fried:nx=%d:f=%d:%s") % (nx, depth, _tag(atm))
+        if cid in seen:
+            return None
+        seen.add(cid)
+        return Case(cid, {"variant": variant, "nx": nx, "depth": depth, "atm": atm}, nontrivial)
+
+    regular = []
     for atm in _atm(tier):
-        tag = "ps=%g,r0=%g,L0=%g" % atm
         for nx in _vk_sizes(tier):
             for nc in _ncols(tier):
-                if nc <= nx:
-                    yield Case("vk:nx=%d:nc=%d:%s" % (nx, nc, tag),
-                               {"variant": "vk", "nx": nx, "depth": nc, "atm": atm}, False)
+                # n_columns > nx_size constructs too (it includes the DEFAULT n_columns=2 at nx_size=1): the stencil is
+                # the whole working array
+                regular.append(lattice("vk", nx, nc, atm))
         for nx in _fried_sizes(tier):
             for f in _factors(tier):
-                yield Case("fried:nx=%d:f=%d:%s" % (nx, f, tag),
-                           {"variant": "fried", "nx": nx, "depth": f, "atm": atm}, False)
-
+                regular.append(lattice("fried", nx, f, atm))
 
     # the strength of the turbulence only scales the matrices (A does not depend on r0, B ~ r0^(-5/6)): very weak and
     # very strong turbulence relative to the outer scale, where an absolute regulariser or threshold would show
     for atm in R0_EXTREMES:
-        tag = "ps=%g,r0=%g,L0=%g" % atm
         for nx, nc in ((4, 2), (7, 2), (7, 3)):
-            yield Case("vk:nx=%d:nc=%d:%s" % (nx, nc, tag), {"variant": "vk", "nx": nx, "depth": nc, "atm": atm}, True)
+            regular.append(lattice("vk", nx, nc, atm, True))
         for nx, f in ((5, 2), (9, 4)):
-            yield Case("fried:nx=%d:f=%d:%s" % (nx, f, tag), {"variant": "fried", "nx": nx, "depth": f, "atm": atm}, True)
+            regular.append(lattice("fried", nx, f, atm, True))
+    # quantifier values that are enumerated completely in the thorough tier only get spot configurations in the
+    # quick tier (the ids are those of the thorough lattice)
+    spots = []
+    for atm in ATMOSPHERES_MORE:
+        spots += [("vk", 5, 2, atm), ("vk", 8, 3, atm), ("vk", 12, 4, atm), ("fried", 5, 2, atm), ("fried", 9, 4, atm),
+                  ("fried", 6, 1, atm), ("fried", 9, 3, atm)]
+    for atm in ATMOSPHERES[:2]:
+        spots += [("fried", 3, 3, atm), ("fried", 5, 3, atm), ("fried", 10, 3, atm), ("fried", 33, 2, atm),
+                  ("vk", 4, 4, atm), ("vk", 6, 4, atm), ("vk", 9, 4, atm), ("vk", 14, 2, atm), ("vk", 20, 3, atm)]
+    regular += [lattice(*sp, nontrivial=True) for sp in spots]
+    for c in regular:
+        if c is not None:
+            yield c
     # the ensemble over INTEGER seeds: every default_rng(<int>) the library makes restarts the same stream
     for variant, nx, depth in (("vk", 4, 2), ("vk", 6, 1), ("fried", 3, 2), ("fried", 5, 1)):
         yield Case("intseed:%s:nx=%d:depth=%d" % (variant, nx, depth), {"variant": variant, "nx": nx, "depth": depth, "intseed": True,
                                                                           "atm": ATMOSPHERES[0]}, True)
-    # long extrusions: step k of a long-lived screen against the FIRST step of a fresh screen started from the same
-    # working array and given the same noise (the law of the new row depends on the current stencil values only)
+    for variant, nx, depth, atm in (("fried", 3, 4, ATMOSPHERES[1]), ("vk", 3, 3, ATMOSPHERES_MORE[2])):
+        yield Case("intseed:%s:nx=%d:depth=%d:%s" % (variant, nx, depth, _tag(atm)),
+                   {"variant": variant, "nx": nx, "depth": depth, "intseed": True, "atm": atm}, True)
+    # long extrusions: step k of a long-lived screen against the row a fresh screen makes from the same
+    # working array and the same noise (the law of the new row depends on the current stencil values only)
     for variant, nx, depth in (("vk", 3, 2), ("vk", 5, 2), ("vk", 8, 3), ("fried", 3, 1), ("fried", 5, 2), ("fried", 6, 1)):
         yield Case("extrude:%s:nx=%d:depth=%d" % (variant, nx, depth), {"variant": variant, "nx": nx, "depth": depth, "extrude": True,
                                                                           "atm": ATMOSPHERES[0]}, True)
-    for nx, nc in (((350, 2),) if tier == "quick" else ((350, 2), (520, 1), (300, 3))):
+    for variant, nx, depth, atm in (("fried", 3, 4, ATMOSPHERES[1]), ("vk", 4, 2, ATMOSPHERES[2]), ("fried", 7, 3, ATMOSPHERES_MORE[1])):
+        yield Case("extrude:%s:nx=%d:depth=%d:%s" % (variant, nx, depth, _tag(atm)),
+                   {"variant": variant, "nx": nx, "depth": depth, "extrude": True, "atm": atm}, True)
+    vkb, frb = _big(tier)
+    for nx, nc in vkb:
         atm = (0.1, 0.2, 25.0)
         yield Case("vk:big:nx=%d:nc=%d" % (nx, nc), {"variant": "vk", "nx": nx, "depth": nc, "atm": atm, "big": True}, True)
+    # Fried variant with 7 and 8 stencil levels (internal 129, 257; requested sizes that are and are not 2^n+1)
+    for nx, f in frb:
+        atm = (0.1, 0.2, 25.0)
+        yield Case("fried:big:nx=%d:f=%d" % (nx, f), {"variant": "fried", "nx": nx, "depth": f, "atm": atm, "big": True}, True)
     # Configurations on which the unchanged library refuses to construct (Cholesky of an ill-conditioned
     # stencil covariance raises LinAlgError): outside the property ("for which construction succeeds") as long
-    # as they are refused - but if a changed library constructs them anyway, the identities are judged.
+    # as they are refused - but if a changed library constructs them anyway, the identities are judged (with
+    # the tolerance scaled to the condition number of the reference stencil covariance).
     for atm in ILL_CONDITIONED:
-        tag = "ps=%g,r0=%g,L0=%g" % atm
+        tag = _tag(atm)
         for nx in (6, 8):
             for nc in (2, 3):
                 yield Case("vk:ill:nx=%d:nc=%d:%s" % (nx, nc, tag), {"variant": "vk", "nx": nx, "depth": nc, "atm": atm}, False)
         yield Case("fried:ill:nx=9:f=2:%s" % tag, {"variant": "fried", "nx": 9, "depth": 2, "atm": atm}, False)
-
-
-def _evaluate_extrude(p):
-    from aotools.turbulence import infinitephasescreen as ips
-    o = Out()
-    variant, nx, depth = p["variant"], p["nx"], p["depth"]
-    ps_, r0, L0 = p["atm"]
-
-    def make():
-        if variant == "vk":
-            return ips.PhaseScreenVonKarman(nx, ps_, r0, L0, random_seed=1, n_columns=depth)
-        return ips.PhaseScreenKolmogorov(nx, ps_, r0, L0, random_seed=1, stencil_length_factor=depth)
-
-    scr = make()
-    rows, cols = scr._scrn.shape
-    steps = 3 * rows + 5
-    worst_new = worst_old = 0.0
-    scale = max(_maxabs(scr._scrn), 1e-300)
-    for k in range(steps):
-        Z = numpy.array(scr._scrn, dtype=float)
-        b = ((numpy.arange(cols) * 7 + 3 * k) % 11 - 5.0) / 4.0
-        scr._R = SeqGenerator(b)
-        scr.add_row()
-        twin = make()
-        twin._scrn = Z.copy()
-        twin._R = SeqGenerator(b)
-        twin.add_row()
-        o.stat("lib_calls", 3)
-        got, want = numpy.asarray(scr._scrn, dtype=float), numpy.asarray(twin._scrn, dtype=float)
-        if got.shape != want.shape or got.shape != (rows, cols):
-            o.check("long_lived_screen_steps_like_a_fresh_one", False, sub="step=%d" % (k + 1), detail="working array %s" % (got.shape,))
-            return o
-        worst_new = max(worst_new, _maxabs(got[0] - want[0]) / scale)
-        worst_old = max(worst_old, _maxabs(got[1:] - Z[:-1]) / scale)
-        if not (_maxabs(got[0] - want[0]) / scale <= 1e-10 and _maxabs(got[1:] - Z[:-1]) == 0.0):
-            o.check("long_lived_screen_steps_like_a_fresh_one", False, sub="step=%d" % (k + 1),
-                    measure=max(_maxabs(got[0] - want[0]) / scale, _maxabs(got[1:] - Z[:-1]) / scale), tol=1e-10,
-                    detail="step %d of one object differs from the first step of a fresh object started from the same working array" % (k + 1))
-            return o
-    o.check("long_lived_screen_steps_like_a_fresh_one", True, measure=max(worst_new, worst_old), tol=1e-10, n=steps)
-    return o
-
-
-def _evaluate_intseed(p):
-    """'b is a fresh, independent unit-normal vector' for a screen made with an integer seed.  With an integer seed
-    every numpy.random.default_rng(seed) call inside the library restarts the same stream z of independent unit
-    normals; that is modelled exactly (default_rng returns, for a non-Generator argument, a generator replaying z).
-    The initial screen and the rows added afterwards are then linear in z; their complete operators are extracted
-    from the unit vectors of z.  The innovation of every new row (new row minus the part predicted from the screen
-    before the step, A Z, with A extracted behaviourally) must be uncorrelated with the initial screen and with the
-    earlier innovations, and have the covariance B B^T of the injected-generator case."""
-    from aotools.turbulence import infinitephasescreen as ips
-    o = Out()
-    variant, nx, depth = p["variant"], p["nx"], p["depth"]
-    ps_, r0, L0 = p["atm"]
-    steps = 3
-
-    def make(seed):
-        if variant == "vk":
-            return ips.PhaseScreenVonKarman(nx, ps_, r0, L0, random_seed=seed, n_columns=depth)
-        return ips.PhaseScreenKolmogorov(nx, ps_, r0, L0, random_seed=seed, stencil_length_factor=depth)
-
-    def run(z, int_seed):
-        real = numpy.random.default_rng
-
-        def fake(seed=None):
-            if isinstance(seed, numpy.random.Generator):
-                return seed
-            return SeqGenerator(z)
-        if int_seed:
-            numpy.random.default_rng = fake
-        try:
-            scr = make(4242 if int_seed else SeqGenerator(z))
-            out = [numpy.array(scr._scrn, dtype=float).ravel()]
-            for _ in range(steps):
-                scr.add_row()
-                out.append(numpy.array(scr._scrn[0], dtype=float).ravel())
-            return out
-        finally:
-            numpy.random.default_rng = real
-
-    probe = make(SeqGenerator(numpy.zeros(1 << 16)))
-    nz = sum(int(numpy.prod(c)) if c else 1 for c in probe._R.calls) + steps * probe.nx_size
-    o.stat("lib_calls", 1)
-    eye = numpy.eye(nz)
-    ops = {}
-    for mode in (True, False):
-        cols = [run(eye[k], mode) for k in range(nz)]
-        o.stat("lib_calls", nz * (1 + steps))
-        ops[mode] = [numpy.array([c[i] for c in cols]).T for i in range(steps + 1)]       # [T_init, T_row1, ...]
-    scale = float(numpy.max(numpy.abs(ops[False][0] @ ops[False][0].T)))
-    for i in range(steps + 1):
-        for j in range(i + 1):
-            Ci = ops[True][i] @ ops[True][j].T
-            Cg = ops[False][i] @ ops[False][j].T
-            o.close("integer_seeded_ensemble_has_the_same_covariance", _maxabs(Ci - Cg) / scale, 1e-9,
-                    sub="%s x %s" % ("initial" if i == 0 else "row%d" % i, "initial" if j == 0 else "row%d" % j))
-    return o
-
-
-def _evaluate_big(p):
-    """A configuration with more than 1024 stencil + new-row points (block-wise implementations change behaviour
-    there): the complete affine map is too large to extract pixel by pixel, so the response is extracted for every
-    documented stencil pixel, for a spread of other pixels (which must have no influence) and for every
-    innovation, and the same covariance identities are judged."""
-    from aotools.turbulence import infinitephasescreen as ips
-    o = Out()
-    ps, r0, L0 = p["atm"]
-    nx, nc = p["nx"], p["depth"]
-    obj = ips.PhaseScreenVonKarman(nx, ps, r0, L0, random_seed=SeqGenerator(()), n_columns=nc)
-    o.stat("lib_calls", 1)
-    o.stat("nontrivial", 1)
-    pr = _Prober(obj, o)
-    H, W = pr.H, pr.W
-    S_ref = geom.vk_stencil(nx, nc)
-    zero = numpy.zeros((H, W))
-    A = numpy.empty((W, len(S_ref)))
-    buf = zero.copy()
-    for c, (i, j) in enumerate(S_ref):
-        buf[i, j] = 1.0
-        A[:, c], _ = pr.step(buf)
-        buf[i, j] = 0.0
-    worst_other = 0.0
-    for k in range(0, H * W, max(1, (H * W) // 97)):
-        i, j = divmod(k, W)
-        if (i, j) in set(S_ref):
-            continue
-        buf[i, j] = 1.0
-        x, _ = pr.step(buf)
-        buf[i, j] = 0.0
-        worst_other = max(worst_other, _maxabs(x))
-    o.close("stencil_support", worst_other, 0.0, detail="a pixel outside the documented stencil influences the new row")
-    Bop = numpy.empty((W, W))
-    for k in range(W):
-        d = numpy.zeros(W)
-        d[k] = 1.0
-        Bop[:, k], _ = pr.step(zero, d)
-    Zpos = numpy.array(S_ref, dtype=float) * ps
-    Xpos = numpy.array(geom.new_row_coords(W), dtype=float) * ps
-    Czz = vk_cov.covariance_matrix(Zpos, Zpos, r0, L0)
-    Cxz = vk_cov.covariance_matrix(Xpos, Zpos, r0, L0)
-    Cxx = vk_cov.covariance_matrix(Xpos, Xpos, r0, L0)
-    B0 = vk_cov.variance(r0, L0)
-    o.close("A_Czz_eq_Cxz", _maxabs(A @ Czz - Cxz) / B0, TOL_COV)
-    o.close("A_Czz_At_plus_BBt_eq_Cxx", _maxabs(A @ Czz @ A.T + Bop @ Bop.T - Cxx) / B0, TOL_COV)
-    return o
-
-
-ILL_CONDITIONED = [(0.01, 0.2, 1e4), (0.001, 0.2, 1e3), (0.0005, 0.1, 1e3), (0.002, 0.2, 300.0)]
+    # whole-life histories through the public API only
+    for variant, nx, depth, mode, steps, ia in HISTORIES:
+        atm = (ATMOSPHERES + ATMOSPHERES_MORE)[ia]
+        yield Case("history:%s:nx=%d:depth=%d:seed=%s:rows=%d:%s" % (variant, nx, depth, mode, steps, _tag(atm)),
+                   {"variant": variant, "nx": nx, "depth": depth, "atm": atm, "history": mode, "steps": steps}, True)
+    # the anchored separations kernel is compiled parallel=True; the harness runs it single-threaded everywhere else
+    yield Case("threads:vk:big:nx=350:nc=2", {"variant": "vk", "nx": 350, "depth": 2, "atm": (0.1, 0.2, 25.0), "big": True,
+                                               "threads": 4}, True)
+    yield Case("threads:fried:nx=18:f=2:%s" % _tag(ATMOSPHERES[0]), {"variant": "fried", "nx": 18, "depth": 2,
+                                                                      "atm": ATMOSPHERES[0], "threads": 4}, True)
+    # calling conventions of the scalar parameters
+    for name in CONVENTIONS:
+        conv, variant = name.split(":")
+        yield Case("conv:%s" % name, {"variant": variant, "conv": conv}, True)
 
 
 def setup(tier):
     vk_cov.selftest()        # reference model vs. its own power spectrum (scipy only, no numba)
+
+
+# ------------------------------------------------------------------------------------------------ helpers
+
+class _NotClaimed(Exception):
+    """an assumption of the check's own instrumentation does not hold on the library under test"""
 
 
 def _maxabs(a):
@@ -287,156 +251,467 @@ def _maxabs(a):
     return float(numpy.max(numpy.abs(a))) if a.size else 0.0
 
 
-class _Prober(object):
-    """drives add_row() on a live object through its documented state (_scrn, _R)"""
+def _count(gen):
+    return sum(int(numpy.prod(c)) if c else 1 for c in gen.calls)
 
-    def __init__(self, obj, out):
-        self.obj = obj
-        self.o = out
-        self.H, self.W = obj._scrn.shape
-        self.bad_draw_calls = None
+
+def _reload(gen, values=()):
+    """give the check's OWN generator double (passed through the public random_seed=) a new list of answers"""
+    gen._values = numpy.asarray(values, dtype=float).reshape(-1)
+    gen._pos = 0
+    gen.calls = []
+
+
+def _irrational(n, amplitude, shift=0):
+    """deterministic non-dyadic values of both signs and a wide range: amplitude * sqrt(prime-like) * (-1)^k"""
+    k = numpy.arange(n) + shift
+    return amplitude * numpy.sqrt(2.0 + 3.0 * k + (k % 7)) * numpy.where(k % 2 == 0, 1.0, -1.0) / numpy.sqrt(3.0 * n + 9.0)
+
+
+def _lin_errors():
+    from scipy import linalg
+    return (linalg.LinAlgError, numpy.linalg.LinAlgError)
+
+
+def _construct(ips, p, seed):
+    """-> (object, requested nx, depth, (ps, r0, L0) as the floats the given scalars denote)"""
+    try:
+        return _construct_raw(ips, p, seed)
+    except RuntimeError as e:
+        if "SeqGenerator" in str(e):       # raised by the generator double itself (a distribution it does not script)
+            raise _NotClaimed("the library draws through %s" % e)
+        raise
+
+
+def _construct_raw(ips, p, seed):
+    variant = p["variant"]
+    cls = ips.PhaseScreenVonKarman if variant == "vk" else ips.PhaseScreenKolmogorov
+    dkw = "n_columns" if variant == "vk" else "stencil_length_factor"
+    conv = p.get("conv")
+    if conv is None:
+        ps, r0, L0 = p["atm"]
+        return cls(p["nx"], ps, r0, L0, random_seed=seed, **{dkw: p["depth"]}), p["nx"], p["depth"], (ps, r0, L0)
+    nx, depth = 6, 2
+    ps, r0, L0 = 0.1, 0.2, 25.0
+    if conv == "int_scalars":
+        ps, r0, L0 = 1, 2, 20
+        obj = cls(nx, ps, r0, L0, random_seed=seed, **{dkw: depth})
+    elif conv == "float32_pixel_scale":
+        ps = numpy.float32(0.1)
+        obj = cls(nx, ps, r0, L0, random_seed=seed, **{dkw: depth})
+    elif conv == "float32_scalars":
+        ps, r0, L0 = numpy.float32(0.1), numpy.float32(0.2), numpy.float32(25.0)
+        obj = cls(nx, ps, r0, L0, random_seed=seed, **{dkw: depth})
+    elif conv == "zero_d_array_scalars":
+        ps, r0, L0 = numpy.array(0.1), numpy.array(0.2), numpy.array(25.0)
+        obj = cls(nx, ps, r0, L0, random_seed=seed, **{dkw: depth})
+    elif conv == "numpy_int64_size":
+        nx, depth = (7, 3) if variant == "vk" else (7, 2)
+        obj = cls(numpy.int64(nx), ps, r0, L0, random_seed=seed, **{dkw: numpy.int64(depth)})
+    elif conv == "positional_depth":
+        depth = 3
+        obj = cls(nx, ps, r0, L0, seed, depth)
+    elif conv == "default_depth":
+        nx, depth = 5, DEFAULT_DEPTH[variant]
+        obj = cls(nx, ps, r0, L0, random_seed=seed)
+    elif conv == "default_depth_size_1":
+        nx, depth = 1, DEFAULT_DEPTH[variant]
+        obj = cls(nx, ps, r0, L0, random_seed=seed)
+    else:
+        raise ValueError(conv)
+    return obj, nx, depth, (float(ps), float(r0), float(L0))
+
+
+def _reference(variant, req, depth):
+    """documented geometry -> (internal width, stencil list sorted by (row, col))"""
+    if variant == "fried":
+        nx_ref, _sl, S_ref = geom.fried_stencil(req, depth)
+        return nx_ref, S_ref
+    return req, geom.vk_stencil(req, min(depth, req))
+
+
+def _covariances(S, W, atm):
+    ps, r0, L0 = atm
+    Zpos = numpy.array(S, dtype=float).reshape(-1, 2) * ps
+    Xpos = numpy.array(geom.new_row_coords(W), dtype=float) * ps
+    return (vk_cov.covariance_matrix(Zpos, Zpos, r0, L0), vk_cov.covariance_matrix(Xpos, Zpos, r0, L0),
+            vk_cov.covariance_matrix(Xpos, Xpos, r0, L0), vk_cov.variance(r0, L0))
+
+
+def _cond(Czz):
+    try:
+        sv = numpy.linalg.svd(Czz, compute_uv=False)
+        return float(sv[0] / sv[-1]) if sv[-1] > 0 else float("inf")
+    except Exception:
+        return float("inf")
+
+
+def _judge_identities(o, A, Bop, S, W, atm, keep_outcome=True):
+    """the two identities of the statement (and the form in which B is usually derived) for A on stencil S, in units of
+    B(0) and in units of the optimal innovation variance"""
+    from scipy import linalg
+    Czz, Cxz, Cxx, B0 = _covariances(S, W, atm)
+    # The explicit inverse of Czz (Cholesky based in the library) is accurate to ~eps*cond(Czz) relative to B(0): on
+    # the well-conditioned lattice that is far below 1e-5, on the ILL_CONDITIONED configurations (cond ~1e9..2e11,
+    # refused by the unchanged library, constructed e.g. by one that evaluates the covariance in float64: measured
+    # 4.4e-6 = 0.19*eps*cond) the tolerance follows the condition number.
+    cond = _cond(Czz)
+    tol = max(TOL_COV, EPS * cond) if numpy.isfinite(cond) else TOL_COV
+    o.close("A_Czz_eq_Cxz", _maxabs(A @ Czz - Cxz) / B0, tol)
+    try:
+        A_ref = linalg.solve(Czz, Cxz.T, assume_a="sym").T
+        Q = Cxx - A_ref @ Cxz.T
+        sc = float(numpy.max(numpy.diag(Q)))
+    except Exception:
+        A_ref, sc = None, 0.0
+    in_units = A_ref is not None and numpy.isfinite(sc) and sc > 1e3 * EPS * B0
+    if in_units:
+        # E|x - A z|^2 - E|x - A_opt z|^2 = (A - A_opt) Czz (A - A_opt)^T = (A Czz - Cxz) Czz^-1 (A Czz - Cxz)^T >= 0:
+        # the first identity weighted with Czz^-1
+        dA = A - A_ref
+        # (quadratic in the error of A: the rounding of an explicit inverse contributes eps^2*cond, nothing, even on the
+        # ILL_CONDITIONED configurations - a float64 library measures 1.3e-3 there)
+        o.close("prediction_error_excess", _maxabs(numpy.einsum("ij,jk,ik->i", dA, Czz, dA)) / sc, TOL_PRED)
+    if Bop is not None:
+        BBt = Bop @ Bop.T
+        o.close("A_Czz_At_plus_BBt_eq_Cxx", _maxabs(A @ Czz @ A.T + BBt - Cxx) / B0, tol)
+        # the same statement in the form the innovation is usually derived: B B^T = Cxx - A Czx
+        o.close("BBt_eq_Cxx_minus_A_Czx", _maxabs(BBt - (Cxx - A @ Cxz.T)) / B0, tol)
+        if in_units:
+            # both identities together: B B^T is the covariance of x - A z
+            true_cc = Cxx - A @ Cxz.T - Cxz @ A.T + A @ Czz @ A.T
+            o.close("innovation_covariance_in_own_units", _maxabs(BBt - true_cc) / sc, max(TOL_INNOV, EPS * cond * B0 / sc))
+    o.note("case_max_abs_A", _maxabs(A))
+    if keep_outcome:
+        o.outcome(numpy.round(A, 6))
+
+
+def _attribute_notes(o, obj, A, Bop):
+    """`A_mat` / `B_mat` are named as a cross-check in the anchors; their existence, layout, column order and dtype are not
+    part of the statement: observations only"""
+    try:
+        A_attr = numpy.asarray(getattr(obj, "A_mat"), dtype=float)
+        o.note("A_mat_vs_behaviour", "shape %s vs %s" % (A_attr.shape, A.shape) if A_attr.shape != A.shape
+               else _maxabs(A_attr - A) / max(_maxabs(A_attr), 1e-300))
+    except Exception as e:
+        o.note("A_mat_vs_behaviour", "not available: %s" % type(e).__name__)
+    if Bop is None:
+        return
+    try:
+        B_attr = numpy.asarray(getattr(obj, "B_mat"), dtype=float)
+        o.note("B_mat_vs_behaviour", "shape %s vs %s" % (B_attr.shape, Bop.shape) if B_attr.shape != Bop.shape
+               else _maxabs(B_attr - Bop) / max(_maxabs(B_attr), 1e-300))
+    except Exception as e:
+        o.note("B_mat_vs_behaviour", "not available: %s" % type(e).__name__)
+
+
+class _Prober(object):
+    """drives add_row() on a live object: the working array is set through `_scrn` (private; the protocol is calibrated
+    first), the innovation through the check's own generator double that was passed as random_seed= (public)."""
+
+    def __init__(self, obj, gen, out, req):
+        self.obj, self.gen, self.o, self.req = obj, gen, out, int(req)
+        self.H = self.W = None
+        self.nd = None                 # values requested from the generator per add_row
+        self.draws_constant = True
+        self.state_dtype = numpy.dtype(float)
+
+    def _add_row(self):
+        try:
+            return self.obj.add_row()
+        except RuntimeError as e:
+            if "SeqGenerator" in str(e):        # raised by the generator double itself (a draw it does not script)
+                raise _NotClaimed("the library draws through %s" % e)
+            raise
+
+    def calibrate(self):
+        """-> return value of the first (public, untouched) add_row.  Raises _NotClaimed when the injection protocol does
+        not hold on this library."""
+        obj, req = self.obj, self.req
+        _reload(self.gen)
+        ret = self._add_row()            # public API only: an exception here is the library's
+        self.o.stat("lib_calls", 1)
+        try:
+            arr = numpy.asarray(obj._scrn)
+            vis = numpy.asarray(obj.scrn)
+        except AttributeError as e:
+            raise _NotClaimed("no working array attribute: %s" % e)
+        if arr.ndim != 2 or arr.dtype.kind != "f" or vis.ndim != 2 or vis.shape[0] > arr.shape[0] or vis.shape[1] > arr.shape[1]:
+            raise _NotClaimed("_scrn is %s %s, .scrn %s" % (arr.shape, arr.dtype, vis.shape))
+        if not numpy.array_equal(arr[:vis.shape[0], :vis.shape[1]], vis):
+            raise _NotClaimed(".scrn is not the leading block of _scrn")
+        H, W = arr.shape
+        self.state_dtype = arr.dtype
+        P = _irrational(H * W, 3.0).reshape(H, W)
+        try:
+            obj._scrn = P.copy()
+            vis = numpy.asarray(obj.scrn)
+            if not numpy.array_equal(vis, P[:vis.shape[0], :vis.shape[1]]):
+                raise _NotClaimed("an array assigned to _scrn does not show through .scrn")
+            _reload(self.gen)
+            self._add_row()
+            nd = _count(self.gen)
+            after = numpy.asarray(obj._scrn)
+            vis = numpy.asarray(obj.scrn)
+        except _NotClaimed:
+            raise
+        except Exception as e:
+            raise _NotClaimed("add_row after assigning _scrn: %s: %s" % (type(e).__name__, str(e)[:80]))
+        self.o.stat("lib_calls", 1)
+        if after.shape != (H, W):
+            raise _NotClaimed("working array %s -> %s in one step" % ((H, W), after.shape))
+        if not numpy.array_equal(after[1:], P[:-1].astype(after.dtype)):
+            raise _NotClaimed("rows 1.. of _scrn after a step are not rows 0.. before it")
+        if not numpy.array_equal(after[:vis.shape[0], :vis.shape[1]], vis):
+            raise _NotClaimed(".scrn is not the leading block of _scrn after a step")
+        self.H, self.W, self.nd = H, W, nd
+        return ret
 
     def step(self, screen, draws=()):
         obj = self.obj
-        g = SeqGenerator(draws)
-        obj._scrn = screen
-        obj._R = g
-        ret = obj.add_row()
+        _reload(self.gen, draws)
+        # always a private copy: a library may update its working array in place
+        obj._scrn = numpy.array(screen, dtype=float).reshape(self.H, self.W)
+        ret = self._add_row()
         self.o.stat("lib_calls", 1)
-        if sum(int(numpy.prod(c)) if c else 1 for c in g.calls) != self.W and self.bad_draw_calls is None:
-            self.bad_draw_calls = list(g.calls)
-        return numpy.array(obj._scrn[0], dtype=float), ret
+        if _count(self.gen) != self.nd:
+            self.draws_constant = False
+        after = numpy.asarray(obj._scrn)
+        if after.shape != (self.H, self.W):
+            raise _NotClaimed("working array %s -> %s in one step" % ((self.H, self.W), after.shape))
+        return numpy.array(after[0], dtype=float), ret
+
+    def innovation_probe_ok(self):
+        return self.draws_constant and bool(self.nd)
+
+    def alg_tol(self):
+        # exact algebra is judged at 1e-10 when the working array is float64 (measured <= 1e-15); a library that keeps
+        # its screen in single precision rounds every row to 6e-8 and is judged at 2e-5 (the identities hold to 1e-5)
+        return TOL_ALG if self.state_dtype.itemsize >= 8 else 2e-5
 
 
-def evaluate(p):
-    if p.get("intseed"):
-        return _evaluate_intseed(p)
-    if p.get("extrude"):
-        return _evaluate_extrude(p)
-    if p.get("big"):
-        return _evaluate_big(p)
-    from scipy import linalg
+def _not_claimed(o, key, e):
+    o.stat(key, 1)
+    o.note(key + "_reason", str(e)[:200])
+    return o
+
+
+# ------------------------------------------------------------------------------------------------ lattice cases
+
+def _prefix(ips, p, o):
+    """History prefix: screens that differ from the one under test in exactly ONE parameter (an atmosphere parameter,
+    the class, the depth, the requested size) are constructed first and discarded.  The matrices of a screen must
+    depend on ITS parameters only; anything remembered from an earlier screen under a key that forgets a parameter
+    (added after a seeded A/B-matrix cache without r0 was missed, extended to class / depth / size after a cache
+    keyed without the class was only found by the accident of the worker schedule) shows up in the identities,
+    deterministically, in every case."""
+    variant, req, depth = p["variant"], p["nx"], p["depth"]
+    ps, r0, L0 = p["atm"]
+    other = "fried" if variant == "vk" else "vk"
+    n_int = geom.allowed_size(req)[0] if variant == "fried" else req
+    sibs = [(variant, req, depth, (ps, r0 * 2.0, L0)), (variant, req, depth, (ps, r0, L0 * 2.0)),
+            (variant, req, depth, (ps * 2.0, r0, L0)),
+            (other, n_int, 1, (ps, r0, L0)), (other, n_int, min(depth, 4), (ps, r0, L0)), (other, n_int, 2, (ps, r0, L0)),
+            (variant, req, depth + 1, (ps, r0, L0))]
+    if depth > 1:
+        sibs.append((variant, req, depth - 1, (ps, r0, L0)))
+    if variant == "fried":
+        for r2 in (n_int, n_int - 1):
+            if r2 != req and r2 >= 1 and geom.allowed_size(r2)[0] == n_int:
+                sibs.append((variant, r2, depth, (ps, r0, L0)))
+                break
+        sibs.append((variant, n_int + 1, depth, (ps, r0, L0)) if n_int <= 17 else (variant, max(1, n_int // 2), depth, (ps, r0, L0)))
+    else:
+        sibs.append((variant, req + 1, depth, (ps, r0, L0)))
+        if req > 1:
+            sibs.append((variant, req - 1, depth, (ps, r0, L0)))
+    done = set()
+    for v, n, d, atm in sibs:
+        if (v, n, d, atm) in done or (v, n, d, atm) == (variant, req, depth, (ps, r0, L0)):
+            continue
+        done.add((v, n, d, atm))
+        try:
+            _construct(ips, {"variant": v, "nx": n, "depth": d, "atm": atm}, SeqGenerator(()))
+            o.stat("lib_calls", 1)
+        except _lin_errors():
+            pass
+
+
+def _find_hidden_reference(Lop, S_used, W, cand, atm, tol_scale):
+    """The Fried reference pixel r lies INSIDE the stencil: its own column of A multiplies (z_r - z_r) = 0 and cannot be
+    observed through add_row.  For each candidate r the unobservable column is the one that fits the first identity
+    best (least squares: a free column, W unknowns).  -> (r, A with that column filled in, residual/B0) of the first
+    candidate within tolerance, else of the best one."""
+    Czz, Cxz, _Cxx, B0 = _covariances(S_used, W, atm)
+    idx = numpy.array([i * W + j for (i, j) in S_used])
+    best = None
+    for r in cand:
+        jr = S_used.index(r)
+        A = Lop[:, idx].copy()
+        A[:, jr] = 0.0
+        c = Czz[jr, :]
+        R = Cxz - A @ Czz
+        A[:, jr] = R @ c / float(c @ c)
+        res = _maxabs(A @ Czz - Cxz) / B0
+        if best is None or res < best[2]:
+            best = (r, A, res)
+        if res <= tol_scale:
+            return r, A, res
+    return best
+
+
+def _evaluate_lattice(p):
     from aotools.turbulence import infinitephasescreen as ips
     o = Out()
-    ps, r0, L0 = p["atm"]
-    req = p["nx"]
     fried = p["variant"] == "fried"
     gen0 = SeqGenerator(())
-    # History prefix: screens that differ from the one under test in exactly ONE parameter are constructed first
-    # (and discarded).  The matrices of a screen must depend on ITS parameters only; anything remembered from an
-    # earlier screen under a key that forgets a parameter (added after a seeded A/B-matrix cache without r0 was
-    # missed) now shows up in the identities below, deterministically, in every case.
-    for sib in ((ps, r0 * 2.0, L0), (ps, r0, L0 * 2.0), (ps * 2.0, r0, L0)):
-        try:
-            if fried:
-                ips.PhaseScreenKolmogorov(req, sib[0], sib[1], sib[2], random_seed=SeqGenerator(()),
-                                          stencil_length_factor=p["depth"])
-            else:
-                ips.PhaseScreenVonKarman(req, sib[0], sib[1], sib[2], random_seed=SeqGenerator(()),
-                                         n_columns=p["depth"])
-            o.stat("lib_calls", 1)
-        except (linalg.LinAlgError, numpy.linalg.LinAlgError):
-            pass
+    if p.get("conv") is None and not p.get("threads"):
+        _prefix(ips, p, o)
     try:
-        if fried:
-            obj = ips.PhaseScreenKolmogorov(req, ps, r0, L0, random_seed=gen0,
-                                            stencil_length_factor=p["depth"])
-        else:
-            obj = ips.PhaseScreenVonKarman(req, ps, r0, L0, random_seed=gen0, n_columns=p["depth"])
-    except (linalg.LinAlgError, numpy.linalg.LinAlgError) as e:
+        obj, req, depth, atm = _construct(ips, p, gen0)
+    except _lin_errors() as e:
         o.stat("construction_failed", 1)
-        o.note("construction_failed_example", "%s %s: %s" % (p["variant"], (req, p["depth"], p["atm"]),
+        o.note("construction_failed_example", "%s %s: %s" % (p["variant"], (p.get("nx"), p.get("depth"), p.get("atm")),
                                                             str(e)[:80]))
         return o
     o.stat("lib_calls", 1)
     o.stat("nontrivial", 1)
+    ps, r0, L0 = atm
 
     # documented geometry -------------------------------------------------------------------
-    if fried:
-        nx_ref, _sl, S_ref = geom.fried_stencil(req, p["depth"])
-        ref_pix = geom.REFERENCE_PIXEL
-    else:
-        nx_ref, S_ref = req, geom.vk_stencil(req, p["depth"])
-        ref_pix = None
+    nx_ref, S_ref = _reference(p["variant"], req, depth)
 
-    pr = _Prober(obj, o)
+    pr = _Prober(obj, gen0, o, req)
+    try:
+        ret_first = pr.calibrate()
+    except _NotClaimed as e:
+        # public part of the observation point only
+        try:
+            _reload(gen0)
+            ret = obj.add_row()
+            ok = numpy.shape(ret) == (req, req) and numpy.array_equal(numpy.asarray(ret), numpy.asarray(obj.scrn))
+            o.check("row_visible_through_scrn", bool(ok), detail="shape %s" % (numpy.shape(ret),))
+        except RuntimeError as e2:
+            if "SeqGenerator" not in str(e2):
+                raise
+        return _not_claimed(o, "state_injection_not_claimed", e)
+    try:
+        return _lattice_body(o, obj, pr, p, fried, req, depth, atm, nx_ref, S_ref, ret_first)
+    except _NotClaimed as e:
+        return _not_claimed(o, "state_injection_not_claimed", e)
+
+
+def _lattice_body(o, obj, pr, p, fried, req, depth, atm, nx_ref, S_ref, ret_first):
+    ps, r0, L0 = atm
     H, W = pr.H, pr.W
     npix = H * W
+    alg = pr.alg_tol()
     o.check("new_row_width", W == nx_ref, detail="working array %s, documented width %d" % ((H, W), nx_ref))
 
-    # E2: full operators ---------------------------------------------------------------------
+    # E2: full operators (zero innovation while L is extracted) ------------------------------
     zero = numpy.zeros((H, W))
-    x0, ret0 = pr.step(zero.copy())
+    x0, ret0 = pr.step(zero)
     o.check("zero_maps_to_zero", bool(numpy.all(x0 == 0.0)), measure=_maxabs(x0), tol=0.0)
     Lop = numpy.empty((W, npix))
-    buf = zero.copy()
-    flat = buf.reshape(-1)
     for k in range(npix):
-        flat[k] = 1.0
+        buf = numpy.zeros(npix)
+        buf[k] = 1.0
         Lop[:, k], _ = pr.step(buf)
-        flat[k] = 0.0
-    Bop = numpy.empty((W, W))
-    for k in range(W):
-        d = numpy.zeros(W)
-        d[k] = 1.0
-        Bop[:, k], _ = pr.step(zero, d)
-    o.check("innovation_draws", pr.bad_draw_calls is None,
-            detail="normal() requests per add_row: %s, expected %d values (one per new pixel)" % (pr.bad_draw_calls, W))
-    scale = max(_maxabs(Lop), _maxabs(Bop), 1e-300)
+    have_B = pr.innovation_probe_ok()
+    nd = pr.nd if have_B else 0
+    Bop = None
+    if have_B:
+        # one column per value the library asks the generator for in one step (their number and order are not part
+        # of the statement; B B^T does not depend on either)
+        Bop = numpy.empty((W, nd))
+        for k in range(nd):
+            d = numpy.zeros(nd)
+            d[k] = 1.0
+            Bop[:, k], _ = pr.step(zero, d)
+        have_B = pr.innovation_probe_ok()
+    o.note("normal_values_requested_per_add_row", pr.nd)
+    if not have_B:
+        Bop = None
+        nd = 0
+        o.stat("innovation_probe_not_claimed", 1)
+        o.note("innovation_probe_not_claimed_reason", "the generator is not asked for the same number of values in every step")
+    scale = max(_maxabs(Lop), _maxabs(Bop) if have_B else 0.0, 1e-300)
+
+    def model(s, d):
+        return Lop @ s + (Bop @ d if have_B else 0.0)
 
     # affinity on the basis: pair classes + dense combination + non-zero innovation ----------
     worst = 0.0
     for a in range(npix):
         b = (a * 7 + 3) % npix
-        k = a % W
         s = numpy.zeros(npix)
         s[a] += 1.0
         s[b] += 2.0
-        d = numpy.zeros(W)
-        d[k] = -0.5
-        x, _ = pr.step(s.reshape(H, W), d)
-        worst = max(worst, _maxabs(x - (Lop @ s + Bop @ d)))
+        d = numpy.zeros(nd)
+        if have_B:
+            d[a % nd] = -0.5
+        x, _ = pr.step(s, d)
+        worst = max(worst, _maxabs(x - model(s, d)))
     s = (numpy.arange(1, npix + 1) % 5 - 2).astype(float)
-    d = ((numpy.arange(W) * 3) % 7 - 3).astype(float)
-    x, ret = pr.step(s.reshape(H, W), d)
-    worst = max(worst, _maxabs(x - (Lop @ s + Bop @ d)) / 4.0)
-    o.close("affine_superposition", worst / scale, TOL_ALG)
-    x_dense, ret_dense = x, ret
-    # "for all innovation vectors": large entries too (b is unbounded; an entry of 10 or 1000 standard deviations
-    # is an input like any other for an affine map)
+    d_dense = ((numpy.arange(nd) * 3) % 7 - 3).astype(float)
+    x, ret = pr.step(s, d_dense)
+    worst = max(worst, _maxabs(x - model(s, d_dense)) / 4.0)
+    o.close("affine_superposition", worst / scale, alg)
+    # "all stencil contents": non-dyadic values of both signs, amplitude ~1e2 and ~1e4 (a wrapped, clipped, rounded or
+    # reduced-precision read of the stencil is exact on the small dyadic images above)
     worst = 0.0
-    for k in range(0, W, max(1, W // 3)):
-        for c in (10.0, -50.0, 1.0e3):
-            d = numpy.zeros(W)
-            d[k] = c
-            xl, _ = pr.step(zero, d)
-            worst = max(worst, _maxabs(xl - c * Bop[:, k]) / (abs(c) * scale))
-    o.close("affine_in_large_innovations", worst, TOL_ALG)
-    x, ret = pr.step(s.reshape(H, W), ((numpy.arange(W) * 3) % 7 - 3).astype(float))     # the dense step again (last state)
+    for amp, shift in ((137.3, 0), (1.0e4, 5), (0.37, 11)):
+        s_irr = _irrational(npix, amp, shift)
+        x, _ = pr.step(s_irr, d_dense)
+        worst = max(worst, _maxabs(x - model(s_irr, d_dense)) / (_maxabs(s_irr) * scale))
+    o.close("affine_on_irrational_screens", worst, alg)
+    if have_B:
+        # "for all innovation vectors": large entries too (b is unbounded; an entry of 10 or 1000 standard deviations
+        # is an input like any other for an affine map)
+        worst = 0.0
+        for k in range(0, nd, max(1, nd // 3)):
+            for c in (10.0, -50.0, 1.0e3):
+                d = numpy.zeros(nd)
+                d[k] = c
+                xl, _ = pr.step(zero, d)
+                worst = max(worst, _maxabs(xl - c * Bop[:, k]) / (abs(c) * scale))
+        o.close("affine_in_large_innovations", worst, alg)
+    x, ret = pr.step(s, d_dense)     # the dense step again (last state)
 
     # observation point named in the anchors: .scrn / return value of add_row -----------------
-    view_ok = (numpy.shape(ret) == (req, req)
-               and numpy.array_equal(numpy.asarray(ret), obj._scrn[:req, :req])
+    view_ok = (numpy.shape(ret) == (req, req) and numpy.shape(ret_first) == (req, req)
+               and numpy.array_equal(numpy.asarray(ret), numpy.asarray(obj.scrn))
                and numpy.array_equal(numpy.asarray(obj.scrn)[0], x[:req]))
     o.check("row_visible_through_scrn", bool(view_ok), detail="shape %s" % (numpy.shape(ret),))
 
     # support of L ---------------------------------------------------------------------------
-    nz = numpy.flatnonzero(numpy.any(Lop != 0.0, axis=0))
-    D = set((int(k // W), int(k % W)) for k in nz)
-    want = set(S_ref) | ({ref_pix} if fried else set())
+    nzc = numpy.flatnonzero(numpy.any(numpy.abs(Lop) > 1e-13 * scale, axis=0))
+    D = set((int(k // W), int(k % W)) for k in nzc)
+    # Fried variant: "a reference pixel" - found behaviourally.  It is the one pixel outside the stencil that has
+    # influence, or (no such pixel) it lies inside the stencil.
+    ref_pix, ref_hidden = None, False
+    if fried:
+        outside = D - set(S_ref)
+        if geom.REFERENCE_PIXEL in outside:
+            ref_pix = geom.REFERENCE_PIXEL
+        elif len(outside) == 1:
+            ref_pix = next(iter(outside))
+            o.note("reference_pixel_observed", list(ref_pix))
+        elif not outside:
+            ref_hidden = True
+        else:
+            ref_pix = geom.REFERENCE_PIXEL      # several pixels outside the stencil: stencil_support fails below
+    want = set(S_ref) | ({ref_pix} if ref_pix is not None else set())
     extra, missing = D - want, want - D
     # A documented stencil pixel whose weight is exactly zero is not a defect when the optimal weight
     # is negligible anyway (the library evaluates the covariance in float32, which underflows to 0
     # for separations of many outer scales); it is one when the pixel should carry weight.
     negligible = set()
     if missing:
-        P = numpy.array(S_ref, dtype=float) * ps
-        Xp = numpy.array(geom.new_row_coords(W), dtype=float) * ps
-        Cz = vk_cov.covariance_matrix(P, P, r0, L0)
-        Cx = vk_cov.covariance_matrix(Xp, P, r0, L0)
-        A_ref = numpy.linalg.lstsq(Cz, Cx.T, rcond=None)[0].T
+        Cz, Cx, _c, _b = _covariances(S_ref, W, atm)
+        A_opt = numpy.linalg.lstsq(Cz, Cx.T, rcond=None)[0].T
         for m in missing:
-            if m in S_ref and m != ref_pix and _maxabs(A_ref[:, S_ref.index(m)]) <= NEGLIGIBLE_WEIGHT:
+            if m in S_ref and m != ref_pix and _maxabs(A_opt[:, S_ref.index(m)]) <= NEGLIGIBLE_WEIGHT:
                 negligible.add(m)
         o.stat("stencil_pixels_with_underflowed_weight", len(negligible))
     significant = missing - negligible
@@ -451,68 +726,576 @@ def evaluate(p):
     idx = numpy.array([i * W + j for (i, j) in S_used])
     A = Lop[:, idx].copy()
 
-    # attributes named as cross-check ----------------------------------------------------------
-    A_attr = numpy.asarray(getattr(obj, "A_mat"))
-    B_attr = numpy.asarray(getattr(obj, "B_mat"))
-    ref_in_stencil = fried and ref_pix in S_used
-    if A_attr.shape != A.shape:
-        o.check("A_mat_attribute", False, detail="A_mat shape %s, behavioural %s" % (A_attr.shape, A.shape))
-    else:
-        if ref_in_stencil:
-            # the stencil value at the reference pixel is measured relative to itself (= 0), so its
-            # column of A is not observable through add_row; take it from the attribute
-            jr = S_used.index(ref_pix)
-            keep = [j for j in range(len(S_used)) if j != jr]
-            o.close("A_mat_attribute", _maxabs(A_attr[:, keep] - A[:, keep]) / max(_maxabs(A_attr), 1e-300),
-                    TOL_ALG)
-        else:
-            o.close("A_mat_attribute", _maxabs(A_attr - A) / max(_maxabs(A_attr), 1e-300), TOL_ALG)
-    if B_attr.shape != Bop.shape:
-        o.check("B_mat_attribute", False, detail="B_mat shape %s, behavioural %s" % (B_attr.shape, Bop.shape))
-    else:
-        o.close("B_mat_attribute", _maxabs(B_attr - Bop) / max(_maxabs(B_attr), 1e-300), TOL_ALG)
-
     if fried:
         # L = A S + (1 - A 1) e_ref^T : constants pass through exactly
         ones = numpy.ones(npix)
-        o.close("constant_passes_through", _maxabs(Lop @ ones - 1.0), TOL_ALG, sub="operator")
+        o.close("constant_passes_through", _maxabs(Lop @ ones - 1.0), alg, sub="operator")
         worst = 0.0
         for c in (1.0, -3.5, 1e3):
             x, _ = pr.step(numpy.full((H, W), c))
             worst = max(worst, _maxabs(x - c) / abs(c))
-            e = numpy.full((H, W), c)
+            e = numpy.full(npix, c)
             a = (int(abs(c)) * 5 + 1) % npix
-            e.reshape(-1)[a] += 1.0
+            e[a] += 1.0
             x, _ = pr.step(e)
             worst = max(worst, _maxabs(x - c - Lop[:, a]) / max(abs(c), 1.0))
-        o.close("constant_passes_through", worst, TOL_ALG, sub="direct")
-        kr = ref_pix[0] * W + ref_pix[1]
-        if ref_in_stencil:
+        # an irrational screen plus an irrational constant
+        s_irr = _irrational(npix, 41.7, 3)
+        x1, _ = pr.step(s_irr)
+        x2, _ = pr.step(s_irr + 977.1234567)
+        worst = max(worst, _maxabs(x2 - x1 - 977.1234567) / 977.1234567)
+        o.close("constant_passes_through", worst, alg, sub="direct")
+        if ref_hidden:
+            # the reference pixel is a stencil pixel (internal size 2, where the tail pixel is (1,1); or a library
+            # that measures relative to another stencil pixel): its column of A is not observable through add_row.
+            Czz_c = _covariances(S_used, W, atm)[0]
+            cond = _cond(Czz_c)
+            cand = [c for c in [geom.REFERENCE_PIXEL] + S_used if c in S_used]
+            cand = sorted(set(cand), key=cand.index)
+            found = _find_hidden_reference(Lop, S_used, W, cand, atm, max(TOL_COV, EPS * cond) if numpy.isfinite(cond) else TOL_COV)
+            ref_pix, A, _res = found
+            o.note("reference_pixel_inside_stencil", list(ref_pix))
             jr = S_used.index(ref_pix)
             others = [j for j in range(len(S_used)) if j != jr]
-            o.close("reference_pixel_column", _maxabs(Lop[:, kr] - (1.0 - A[:, others].sum(axis=1))), TOL_ALG)
-            if A_attr.shape == A.shape:
-                A[:, jr] = A_attr[:, jr]
-                o.note("ref_pixel_in_stencil", "column of A at the reference pixel taken from A_mat")
-            else:
-                return o
+            kr = ref_pix[0] * W + ref_pix[1]
+            o.close("reference_pixel_column", _maxabs(Lop[:, kr] - (1.0 - A[:, others].sum(axis=1))), alg)
         else:
-            o.close("reference_pixel_column", _maxabs(Lop[:, kr] - (1.0 - A.sum(axis=1))), TOL_ALG)
+            kr = ref_pix[0] * W + ref_pix[1]
+            o.close("reference_pixel_column", _maxabs(Lop[:, kr] - (1.0 - A.sum(axis=1))), alg)
 
+    _attribute_notes(o, obj, A, Bop)
     # oracle: independent covariance at the documented positions ------------------------------
-    Zpos = numpy.array(S_used, dtype=float) * ps
-    Xpos = numpy.array(geom.new_row_coords(W), dtype=float) * ps
-    Czz = vk_cov.covariance_matrix(Zpos, Zpos, r0, L0)
-    Cxz = vk_cov.covariance_matrix(Xpos, Zpos, r0, L0)
-    Cxx = vk_cov.covariance_matrix(Xpos, Xpos, r0, L0)
-    B0 = vk_cov.variance(r0, L0)
-    o.close("A_Czz_eq_Cxz", _maxabs(A @ Czz - Cxz) / B0, TOL_COV)
-    o.close("A_Czz_At_plus_BBt_eq_Cxx", _maxabs(A @ Czz @ A.T + Bop @ Bop.T - Cxx) / B0, TOL_COV)
-    # the same statement in the form the innovation is usually derived: B B^T = Cxx - A Czx
-    o.close("BBt_eq_Cxx_minus_A_Czx", _maxabs(Bop @ Bop.T - (Cxx - A @ Cxz.T)) / B0, TOL_COV)
-    o.note("case_max_abs_A", _maxabs(A))
-    o.outcome(numpy.round(A, 6))
+    _judge_identities(o, A, Bop, S_used, W, atm)
     return o
+
+
+# ------------------------------------------------------------------------------------------------ big configurations
+
+def _evaluate_big(p):
+    """A configuration with more than 1024 stencil + new-row points (block-wise implementations change behaviour
+    there), or a Fried screen with 7 / 8 stencil levels: the complete affine map is too large to extract pixel by
+    pixel, so the response is extracted for every documented stencil pixel (and the reference pixel), for a spread of
+    other pixels (which must have no influence) and for every innovation, and the same covariance identities are
+    judged."""
+    from aotools.turbulence import infinitephasescreen as ips
+    o = Out()
+    fried = p["variant"] == "fried"
+    gen0 = SeqGenerator(())
+    try:
+        obj, req, depth, atm = _construct(ips, p, gen0)
+    except _lin_errors() as e:
+        o.stat("construction_failed", 1)          # "for which construction succeeds"
+        o.note("construction_failed_example", "%s %s: %s" % (p["variant"], (p["nx"], p["depth"], p["atm"]), str(e)[:80]))
+        return o
+    o.stat("lib_calls", 1)
+    o.stat("nontrivial", 1)
+    pr = _Prober(obj, gen0, o, req)
+    try:
+        pr.calibrate()
+        H, W = pr.H, pr.W
+        nx_ref, S_ref = _reference(p["variant"], req, depth)
+        o.check("new_row_width", W == nx_ref, detail="working array %s, documented width %d" % ((H, W), nx_ref))
+        if W != nx_ref or H * W <= max(i * W + j for i, j in S_ref):
+            return o
+        zero = numpy.zeros((H, W))
+
+        def unit(i, j):
+            buf = numpy.zeros((H, W))
+            buf[i, j] = 1.0
+            return pr.step(buf)[0]
+        A = numpy.empty((W, len(S_ref)))
+        for c, (i, j) in enumerate(S_ref):
+            A[:, c] = unit(i, j)
+        scale = max(_maxabs(A), 1e-300)
+        inside = set(S_ref)
+        ref_pix = None
+        if fried:
+            ref_pix = geom.REFERENCE_PIXEL
+            inside.add(ref_pix)
+        others = list(range(0, H * W, max(1, (H * W) // 97)))
+        # neighbours of the stencil rows / the last rows and columns
+        others += [i * W + j for (i, j) in ((0 + H // 2, 0), (H - 1, 0), (H - 1, W - 1), (H - 2, W // 2), (1, 0), (1, W - 1))]
+        influence = {}
+        for k in others:
+            i, j = divmod(k, W)
+            if (i, j) in inside:
+                continue
+            col = unit(i, j)
+            if _maxabs(col) > 1e-13 * scale:
+                influence[(i, j)] = col
+        if fried and len(influence) == 1 and _maxabs(next(iter(influence.values())) - (1.0 - A.sum(axis=1))) <= pr.alg_tol():
+            o.note("reference_pixel_observed", list(next(iter(influence))))      # "a reference pixel": any pixel will do
+            influence = {}
+        o.close("stencil_support", max([_maxabs(c) for c in influence.values()] or [0.0]), 1e-13 * scale,
+                detail="a pixel outside the documented stencil influences the new row: %s" % sorted(influence)[:6])
+        s_irr = _irrational(H * W, 137.3).reshape(H, W)
+        x, _ = pr.step(s_irr)
+        zs = numpy.array([s_irr[i, j] for (i, j) in S_ref])
+        want = A @ zs
+        if fried:
+            worst = 0.0
+            for c in (1.0, -3.5, 1e3):
+                xc, _ = pr.step(numpy.full((H, W), c))
+                worst = max(worst, _maxabs(xc - c) / abs(c))
+            o.close("constant_passes_through", worst, pr.alg_tol(), sub="direct")
+            # "a reference pixel": x = A (z - z_ref) + z_ref = A z + g z_ref with g = 1 - A 1
+            g = 1.0 - A.sum(axis=1)
+            col_ref = unit(*ref_pix)
+            if _maxabs(g) <= pr.alg_tol():
+                # the measured stencil columns already sum to one: the reference pixel is one of the stencil pixels and
+                # its column of A cannot be observed (resolved on the small lattice only)
+                raise _NotClaimed("reference pixel inside the stencil of a big configuration")
+            elif ref_pix not in S_ref and _maxabs(col_ref - g) <= pr.alg_tol():
+                want = want + g * s_irr[ref_pix]
+            else:
+                # another pixel outside the stencil: its value is the one number that explains the rest of the row
+                o.note("reference_pixel_differs_from_documented_pixel", _maxabs(col_ref - g))
+                want = want + g * float(g @ (x - want) / (g @ g))
+        # an irrational screen: the stencil response must explain the row completely
+        o.close("affine_on_irrational_screens", _maxabs(x - want) / (_maxabs(s_irr) * max(scale, 1.0)), pr.alg_tol())
+        Bop = None
+        if pr.innovation_probe_ok():
+            nd = pr.nd
+            Bop = numpy.empty((W, nd))
+            for k in range(nd):
+                d = numpy.zeros(nd)
+                d[k] = 1.0
+                Bop[:, k], _ = pr.step(zero, d)
+        if Bop is None or not pr.innovation_probe_ok():
+            Bop = None
+            o.stat("innovation_probe_not_claimed", 1)
+        _judge_identities(o, A, Bop, S_ref, W, atm, keep_outcome=False)
+    except _NotClaimed as e:
+        return _not_claimed(o, "state_injection_not_claimed", e)
+    return o
+
+
+# ------------------------------------------------------------------------------------------------ long-lived object
+
+def _evaluate_extrude(p):
+    """One screen object is extruded for 3*rows+5 steps through the public API (its own generator reloaded per step);
+    every step is compared with the row that the operators L, B - extracted once from a FRESH object of the same
+    configuration - give for the working array before the step and the same noise."""
+    from aotools.turbulence import infinitephasescreen as ips
+    o = Out()
+    req = p["nx"]
+    fresh_gen = SeqGenerator(())
+    fresh, _r, _d, atm = _construct(ips, p, fresh_gen)
+    o.stat("lib_calls", 1)
+    pr = _Prober(fresh, fresh_gen, o, req)
+    try:
+        pr.calibrate()
+        H, W = pr.H, pr.W
+        npix = H * W
+        Lop = numpy.empty((W, npix))
+        for k in range(npix):
+            buf = numpy.zeros(npix)
+            buf[k] = 1.0
+            Lop[:, k], _ = pr.step(buf)
+        if not pr.innovation_probe_ok():
+            raise _NotClaimed("the generator is not asked for the same number of values in every step")
+        nd = pr.nd
+        Bop = numpy.empty((W, nd))
+        zero = numpy.zeros((H, W))
+        for k in range(nd):
+            d = numpy.zeros(nd)
+            d[k] = 1.0
+            Bop[:, k], _ = pr.step(zero, d)
+        if not pr.innovation_probe_ok():
+            raise _NotClaimed("the generator is not asked for the same number of values in every step")
+        # the long-lived object: never touched except through add_row and its generator; initial screen from
+        # non-trivial draws
+        gen = SeqGenerator(_irrational(1 << 14, 1.3))
+        scr = _construct(ips, p, gen)[0]
+        o.stat("lib_calls", 1)
+        Z = numpy.array(scr._scrn, dtype=float)
+        if Z.shape != (H, W) or not numpy.array_equal(Z[:req, :req], numpy.asarray(scr.scrn)):
+            raise _NotClaimed("working array of the long-lived object is not observable")
+        steps = 3 * H + 5
+        scale = max(_maxabs(Z), 1e-300)
+        worst = 0.0
+        tol = max(1e-10, pr.alg_tol())
+        # rows are copied, not recomputed (a screen kept in single precision may round the float64 initial screen once)
+        tol_old = 1e-14 if pr.state_dtype.itemsize >= 8 else 5e-7
+        for k in range(steps):
+            b = ((numpy.arange(nd) * 7 + 3 * k) % 11 - 5.0) / 4.0
+            _reload(gen, b)
+            try:
+                ret = scr.add_row()
+            except RuntimeError as e:
+                if "SeqGenerator" in str(e):
+                    raise _NotClaimed(str(e))
+                raise
+            o.stat("lib_calls", 1)
+            if _count(gen) != nd:
+                raise _NotClaimed("the generator is not asked for the same number of values in every step")
+            got = numpy.asarray(scr._scrn, dtype=float)
+            if got.shape != (H, W):
+                raise _NotClaimed("working array changed shape")
+            vis = numpy.asarray(ret)
+            want0 = Lop @ Z.ravel() + Bop @ b
+            # public part: the visible block
+            pub_ok = vis.shape == (req, req) and numpy.array_equal(vis, got[:req, :req])
+            e_new = _maxabs(got[0] - want0) / scale
+            e_old = _maxabs(got[1:] - Z[:-1]) / scale
+            worst = max(worst, e_new, e_old)
+            if not (pub_ok and e_new <= tol and e_old <= tol_old):
+                o.check("long_lived_screen_steps_like_a_fresh_one", False, sub="step=%d" % (k + 1),
+                        measure=max(e_new, e_old), tol=tol,
+                        detail="step %d of one object differs from the row a fresh object makes from the same working array "
+                               "(new row %.3g, older rows %.3g, visible block consistent: %s)" % (k + 1, e_new, e_old, pub_ok))
+                return o
+            Z = got.copy()
+        o.check("long_lived_screen_steps_like_a_fresh_one", True, measure=worst, tol=tol, n=steps)
+    except _NotClaimed as e:
+        return _not_claimed(o, "state_injection_not_claimed", e)
+    except AttributeError as e:
+        if "_scrn" in str(e):
+            return _not_claimed(o, "state_injection_not_claimed", e)
+        raise
+    return o
+
+
+# ------------------------------------------------------------------------------------------------ whole-life histories
+
+class _Streams(object):
+    """Model of the library's sources of unit normals during one execution.  `gen` mode: one generator double handed over
+    as random_seed=.  `int` / `none` mode: numpy.random.default_rng is replaced; a Generator argument is passed
+    through (as numpy does), every other argument yields a fresh generator double that replays the block of z KEYED ON THE
+    ARGUMENT (the same integer restarts the same stream, another seed or a spawned SeedSequence is an independent
+    stream, None is fresh entropy at every call)."""
+
+    def __init__(self, blocks):
+        self.blocks = blocks          # key -> values
+        self.gens = []                # (key, generator) in order of creation
+        self.n_none = 0
+
+    def key(self, seed):
+        if seed is None:
+            self.n_none += 1
+            return "none#%d" % self.n_none
+        if isinstance(seed, (bool, int, numpy.integer)):
+            return "int:%d" % int(seed)
+        if isinstance(seed, numpy.random.SeedSequence):
+            return "ss:%r:%r" % (seed.entropy, tuple(seed.spawn_key))
+        if isinstance(seed, numpy.random.BitGenerator):
+            raise _NotClaimed("default_rng(BitGenerator) is not modelled")
+        try:
+            return "seq:%r" % (tuple(int(v) for v in numpy.asarray(seed).ravel()),)
+        except Exception:
+            raise _NotClaimed("default_rng(%s) is not modelled" % type(seed).__name__)
+
+    def make(self, key):
+        g = SeqGenerator(self.blocks.get(key, ()))
+        self.gens.append((key, g))
+        return g
+
+    def default_rng(self, seed=None):
+        if isinstance(seed, numpy.random.Generator):
+            return seed
+        return self.make(self.key(seed))
+
+    def layout(self):
+        """-> list of (key, number of values consumed) in order of first use"""
+        used, order = {}, []
+        for k, g in self.gens:
+            if k not in used:
+                order.append(k)
+            used[k] = max(used.get(k, 0), g.consumed)
+        return [(k, used[k]) for k in order]
+
+
+def _global_random_used(*a, **k):
+    raise _NotClaimed("the library draws from the global numpy.random state")
+
+
+def _run_life(ips, p, mode, steps, blocks, private, info=None):
+    """one life of a screen: construction + `steps` rows -> (list of observed states, stream layout)"""
+    st = _Streams(blocks)
+    patches = []                  # (module, attribute, original, replacement)
+    if mode != "gen":
+        real = numpy.random.default_rng
+        patches.append((numpy.random, "default_rng", real, st.default_rng))
+        # a library that did `from numpy.random import default_rng`
+        for name, mod in list(sys.modules.items()):
+            if mod is not None and (name == "aotools" or name.startswith("aotools.")):
+                for attr, val in list(vars(mod).items()):
+                    if val is real:
+                        patches.append((mod, attr, real, st.default_rng))
+        if mode == "none":
+            # the legacy global state is a legitimate source of normals for random_seed=None, but one the stream model
+            # does not cover: downgraded to "not claimed"
+            for attr in ("normal", "standard_normal", "randn", "random", "rand", "random_sample", "uniform", "seed"):
+                patches.append((numpy.random, attr, getattr(numpy.random, attr), _global_random_used))
+    try:
+        for mod, attr, _orig, repl in patches:
+            setattr(mod, attr, repl)
+        seed = st.make("gen") if mode == "gen" else (4242 if mode == "int" else None)
+        try:
+            scr = _construct(ips, p, seed)[0]
+            out = [_observe(scr, p["nx"], private)]
+            for _ in range(steps):
+                scr.add_row()
+                out.append(_observe(scr, p["nx"], private))
+            if info is not None:
+                info["dtype"] = numpy.asarray(scr.scrn).dtype
+        except RuntimeError as e:
+            if "SeqGenerator" in str(e):
+                raise _NotClaimed(str(e))
+            raise
+    finally:
+        for mod, attr, orig, _repl in patches:
+            setattr(mod, attr, orig)
+    return out, st.layout()
+
+
+def _observe(scr, req, private):
+    vis = numpy.array(scr.scrn, dtype=float)
+    if not private:
+        return vis
+    try:
+        full = numpy.array(scr._scrn, dtype=float)
+    except AttributeError as e:
+        raise _NotClaimed(str(e))
+    if full.ndim != 2 or vis.ndim != 2 or not numpy.array_equal(full[:vis.shape[0], :vis.shape[1]], vis):
+        raise _NotClaimed(".scrn is not the leading block of _scrn")
+    return full
+
+
+def _life_operators(ips, p, mode, steps, private, o, info=None):
+    """-> (list over time of operators [pixels x nz], shape of an observed state, nz).  All outputs are linear in the
+    concatenation z of the stream blocks (checked: z = 0 gives 0, twice)."""
+    dry, layout = _run_life(ips, p, mode, steps, {}, private, info)
+    dry2, layout2 = _run_life(ips, p, mode, steps, {}, private)
+    o.stat("lib_calls", 2 * (1 + steps))
+    if layout != layout2 or any(_maxabs(a) != 0.0 for a in dry + dry2):
+        raise _NotClaimed("a source of randomness escapes the stream model (zero stream does not give a zero screen)")
+    if any(a.shape != dry[0].shape for a in dry):
+        raise _NotClaimed("observed state changes shape")
+    nz = sum(n for _k, n in layout)
+    if nz == 0:
+        raise _NotClaimed("no normal values requested")
+    ops = [numpy.empty((dry[0].size, nz)) for _ in range(steps + 1)]
+    col = 0
+    for key, n in layout:
+        for i in range(n):
+            v = numpy.zeros(n)
+            v[i] = 1.0
+            outs, lay = _run_life(ips, p, mode, steps, {key: v}, private)
+            if lay != layout:
+                raise _NotClaimed("the stream layout depends on the drawn values")
+            for t in range(steps + 1):
+                ops[t][:, col] = outs[t].ravel()
+            col += 1
+    o.stat("lib_calls", nz * (1 + steps))
+    o.note("stream_layout", [[k, n] for k, n in layout])
+    return ops, dry[0].shape, nz
+
+
+def _evaluate_history(p):
+    """'b is a fresh, independent unit-normal vector' and 'the statistics stay stationary as the screen is extruded', on
+    the public API: row_k - E[row_k | screen before] (reference predictor from the documented geometry and the
+    reference covariance) must be uncorrelated with the initial screen and with the innovations of all earlier rows and
+    have the reference conditional covariance; older rows move down by exactly one row."""
+    from aotools.turbulence import infinitephasescreen as ips
+    from scipy import linalg
+    o = Out()
+    variant, req, depth, atm, mode, steps = p["variant"], p["nx"], p["depth"], p["atm"], p["history"], p["steps"]
+    fried = variant == "fried"
+    nx_ref, S_ref = _reference(variant, req, depth)
+    H_ref = depth * nx_ref if fried else nx_ref
+    # is every stencil pixel visible through .scrn (public)?  otherwise the full working array is read (guarded)
+    private = not all(i < req and j < req for (i, j) in S_ref + ([geom.REFERENCE_PIXEL] if fried else []))
+    key = "history_not_claimed" if mode == "gen" else ("none_seed_not_claimed" if mode == "none" else "intseed_not_claimed")
+    try:
+        info = {}
+        ops, shape, nz = _life_operators(ips, p, mode, steps, private, o, info)
+    except _NotClaimed as e:
+        return _not_claimed(o, key, e)
+    o.stat("nontrivial", 1)
+    # rows are copied, not recomputed: exact when the screen is kept in float64; a library that keeps its screen in single
+    # precision may round the (float64) initial screen once
+    single = numpy.dtype(info.get("dtype", float)).itemsize < 8
+    Hs, Ws = shape
+    if private and (Hs, Ws) != (H_ref, nx_ref):
+        return _not_claimed(o, key, "working array %s, documented %s" % (shape, (H_ref, nx_ref)))
+    o.check("history_visible_shape", private or (Hs, Ws) == (req, req), detail="observed %s" % (shape,))
+    if not private and (Hs, Ws) != (req, req):
+        return o
+    Czz, Cxz, Cxx, B0 = _covariances(S_ref, nx_ref, atm)
+    try:
+        A_ref = linalg.solve(Czz, Cxz.T, assume_a="sym").T
+    except _lin_errors() as e:
+        raise RuntimeError("reference model: %s" % e)
+    Q_ref = Cxx - A_ref @ Cxz.T
+    Wn = min(Ws, nx_ref)             # visible part of the new row
+    sidx = numpy.array([i * Ws + j for (i, j) in S_ref])
+    # older rows move down by one (exact copies)
+    worst = 0.0
+    for t in range(1, steps + 1):
+        a = ops[t].reshape(Hs, Ws, nz)[1:]
+        b = ops[t - 1].reshape(Hs, Ws, nz)[:-1]
+        worst = max(worst, _maxabs(a - b))
+    o.close("history_older_rows_move_down", worst / max(_maxabs(ops[0]), 1e-300), 5e-7 if single else 1e-14)
+
+    def innovations(ref):
+        E = []
+        for t in range(1, steps + 1):
+            prev = ops[t - 1]
+            Zop = prev[sidx, :]
+            if fried:
+                rop = prev[ref[0] * Ws + ref[1], :][None, :]
+                pred = A_ref @ (Zop - rop) + rop
+            else:
+                pred = A_ref @ Zop
+            E.append(ops[t].reshape(Hs, Ws, nz)[0, :Wn, :] - pred[:Wn])
+        return E
+
+    def residuals(E):
+        stack = numpy.concatenate(E, axis=0)                   # (steps*Wn) x nz
+        G = stack @ stack.T
+        cross0 = _maxabs(stack @ ops[0].T) / B0
+        own = 0.0
+        for t in range(steps):
+            blk = G[t * Wn:(t + 1) * Wn, t * Wn:(t + 1) * Wn]
+            own = max(own, _maxabs(blk - Q_ref[:Wn, :Wn]) / B0)
+            G[t * Wn:(t + 1) * Wn, t * Wn:(t + 1) * Wn] = 0.0
+        return cross0, _maxabs(G) / B0, own
+
+    cands = [None]
+    if fried:
+        cands = [geom.REFERENCE_PIXEL] + [(i, j) for i in range(Hs) for j in range(Ws) if (i, j) != geom.REFERENCE_PIXEL]
+        cands = [c for c in cands if c[0] < Hs and c[1] < Ws]
+    best = None
+    for ref in cands:
+        r = residuals(innovations(ref))
+        if best is None or max(r) < max(best[1]):
+            best = (ref, r)
+        if max(r) <= TOL_COV:
+            break
+    ref, (cross0, cross, own) = best
+    if fried and ref != geom.REFERENCE_PIXEL:
+        o.note("reference_pixel_observed", list(ref))
+    # tolerance: the reference predictor is float64, the library's A carries the float32 separations (<= 3e-7 B(0) in the
+    # identities): 1e-5 B(0), the tolerance of the identities
+    o.close("history_innovation_uncorrelated_with_initial_screen", cross0, TOL_COV)
+    o.close("history_innovations_mutually_uncorrelated", cross, TOL_COV)
+    o.close("history_innovation_covariance", own, TOL_COV)
+    o.outcome(numpy.round(ops[-1] @ ops[-1].T, 6))
+    return o
+
+
+def _evaluate_intseed(p):
+    """'b is a fresh, independent unit-normal vector' for a screen made with an integer seed, compared with the same
+    library given a Generator: with an integer seed every numpy.random.default_rng(seed) call inside the library
+    restarts the stream that belongs to THAT seed value (see _Streams); with a Generator there is one stream.  The
+    initial screen and the rows added afterwards are linear in the streams; the second-order statistics of
+    (initial screen, row 1, 2, 3) of both ensembles must agree."""
+    from aotools.turbulence import infinitephasescreen as ips
+    o = Out()
+    steps = 3
+    try:
+        private = True
+        try:
+            ops_i, shape_i, nz_i = _life_operators(ips, p, "int", steps, True, o)
+        except _NotClaimed:
+            private = False
+            ops_i, shape_i, nz_i = _life_operators(ips, p, "int", steps, False, o)
+        ops_g, shape_g, nz_g = _life_operators(ips, p, "gen", steps, private, o)
+    except _NotClaimed as e:
+        return _not_claimed(o, "intseed_not_claimed", e)
+    if shape_i != shape_g:
+        return _not_claimed(o, "intseed_not_claimed", "observed shapes %s / %s" % (shape_i, shape_g))
+    Hs, Ws = shape_i
+
+    def parts(ops):
+        return [ops[0]] + [ops[t].reshape(Hs, Ws, -1)[0] for t in range(1, steps + 1)]     # [T_init, T_row1, ...]
+    Ti, Tg = parts(ops_i), parts(ops_g)
+    scale = float(numpy.max(numpy.abs(Tg[0] @ Tg[0].T)))
+    for i in range(steps + 1):
+        for j in range(i + 1):
+            Ci = Ti[i] @ Ti[j].T
+            Cg = Tg[i] @ Tg[j].T
+            o.close("integer_seeded_ensemble_has_the_same_covariance", _maxabs(Ci - Cg) / scale, 1e-9,
+                    sub="%s x %s" % ("initial" if i == 0 else "row%d" % i, "initial" if j == 0 else "row%d" % j))
+    return o
+
+
+# ------------------------------------------------------------------------------------------------ several numba threads
+
+_CHILD = """
+import sys, json
+sys.path.insert(0, %r)
+import mc.repo
+import checks.C04 as C
+p = json.loads(sys.argv[1])
+p["atm"] = tuple(p["atm"])
+import numba
+o = C.evaluate(p)
+try:
+    layer = numba.threading_layer()
+except Exception:
+    layer = None
+print("@@C04@@" + json.dumps({"failures": o.failures, "clauses": o.clauses, "stats": o.stats, "notes": o.notes,
+                              "threads": numba.get_num_threads(), "layer": layer}))
+"""
+
+
+def _evaluate_threads(p):
+    """the same case in a fresh interpreter with NUMBA_NUM_THREADS=4 (the harness pins numba to one thread per worker,
+    users run the parallel separations kernel on all cores)"""
+    o = Out()
+    q = dict(p)
+    n = q.pop("threads")
+    verif = os.path.dirname(os.path.dirname(os.path.abspath(__file__)))
+    env = dict(os.environ, NUMBA_NUM_THREADS=str(n), PYTHONDONTWRITEBYTECODE="1", PYTHONWARNINGS="ignore")
+    try:
+        r = subprocess.run([sys.executable, "-c", _CHILD % verif, json.dumps(q)], cwd=verif, env=env,
+                           capture_output=True, text=True, timeout=600)
+        line = [ln for ln in r.stdout.splitlines() if ln.startswith("@@C04@@")]
+        if not line:
+            # the harness's own child did not deliver (cannot start threads, crashed, ...): not a verdict on the library
+            tail = (r.stderr or "").strip().splitlines()[-3:]
+            if any("Error" in t or "Exception" in t for t in tail) and "Traceback" in (r.stderr or ""):
+                o.check("no_exception", False, sub="numba_threads=%d" % n, detail=" | ".join(tail)[:400])
+                return o
+            return _not_claimed(o, "threaded_run_not_claimed", "exit %s %s" % (r.returncode, " | ".join(tail)[:160]))
+        res = json.loads(line[-1][len("@@C04@@"):])
+    except (subprocess.TimeoutExpired, OSError, ValueError) as e:
+        return _not_claimed(o, "threaded_run_not_claimed", "%s: %s" % (type(e).__name__, str(e)[:120]))
+    if int(res.get("threads") or 0) < 2:
+        return _not_claimed(o, "threaded_run_not_claimed", "numba runs %s thread(s)" % res.get("threads"))
+    o.failures = res["failures"]
+    o.clauses = res["clauses"]
+    o.stats = res["stats"]
+    o.notes = res["notes"]
+    o.note("numba_threads", res.get("threads"))
+    o.note("numba_threading_layer", res.get("layer"))
+    return o
+
+
+# ------------------------------------------------------------------------------------------------ dispatch
+
+def evaluate(p):
+    try:
+        if p.get("threads"):
+            return _evaluate_threads(p)
+        if p.get("history") or p.get("intseed") or p.get("extrude"):
+            try:
+                if p.get("history"):
+                    return _evaluate_history(p)
+                return _evaluate_intseed(p) if p.get("intseed") else _evaluate_extrude(p)
+            except _lin_errors() as e:
+                o = Out()
+                o.stat("construction_failed", 1)          # "for which construction succeeds"
+                o.note("construction_failed_example", "%s %s: %s" % (p["variant"], (p["nx"], p["depth"], p["atm"]), str(e)[:80]))
+                return o
+        if p.get("big"):
+            return _evaluate_big(p)
+        return _evaluate_lattice(p)
+    except _NotClaimed as e:
+        # an assumption of the check's own instrumentation fails outside the places where that is expected
+        return _not_claimed(Out(), "state_injection_not_claimed", e)
 
 
 def finalize(tier, results):
@@ -525,20 +1308,34 @@ def finalize(tier, results):
            sum(r.stats.get("stencil_pixels_with_underflowed_weight", 0) for r in results.values()))
     o.note("constructions_succeeded", ok)
     o.note("constructions_raising_LinAlgError", failed)
-    # the exploration must not be vacuous: most of the lattice has to construct
-    o.check("lattice_mostly_constructible", ok >= 0.5 * max(1, len(results)),
-            detail="%d of %d configurations constructed" % (ok, len(results)))
+    for key in ("state_injection_not_claimed", "innovation_probe_not_claimed", "history_not_claimed", "intseed_not_claimed",
+                "none_seed_not_claimed", "threaded_run_not_claimed"):
+        o.note("cases_with_" + key, sum(r.stats.get(key, 0) for r in results.values()))
+    # the exploration must not be vacuous: most of the lattice has to construct (the ILL_CONDITIONED configurations
+    # are expected to be refused and do not count)
+    regular = [cid for cid in results if ":ill:" not in cid]
+    ok_regular = sum(1 for cid in regular if results[cid].stats.get("nontrivial"))
+    if regular:
+        o.check("lattice_mostly_constructible", ok_regular >= 0.5 * len(regular),
+                detail="%d of %d configurations constructed" % (ok_regular, len(regular)))
     return o
 
 
-LEVEL_TEXT = ("Every configuration of the lattice (von Karman: nx 1..9 x n_columns 1..3 (<= nx) x 4 atmospheres quick / "
+LEVEL_TEXT = ("Every configuration of the lattice (von Karman: nx 1..9 x n_columns 1..3 (also > nx) x 4 atmospheres quick / "
               "nx 1..20 x n_columns 1..4 x 7 atmospheres thorough; Fried: requested nx 1..10, 17, 18 quick / 1..18, "
               "33, 34, 65 thorough (internal 2,3,5,9,17,33,65) x stencil_length_factor 1,2,4 (and 3 thorough) x the "
-              "same atmospheres) is constructed and the complete affine map of "
+              "same atmospheres; quick: spot configurations for factor 3, n_columns 4, nx up to 20 / 33 and the three extra "
+              "atmospheres) is constructed and the complete affine map of "
               "add_row() is extracted from every pixel of the working array and every innovation unit vector, "
               "so the conditional-law identities hold for all stencil contents and innovations of those "
-              "configurations, not for sampled rows.")
+              "configurations, not for sampled rows. Spot configurations: von Karman 350 (520, 300 thorough), Fried "
+              "requested 100 and 200 (and 129 thorough; internal 129, 257) with the stencil columns and all innovations; "
+              "11 whole-life histories (construction + 7..70 rows; Generator, integer and None seeds) as linear maps of the "
+              "consumed normal stream; 13 calling conventions of the scalar parameters; two cases with 4 numba threads.")
 LEVEL_NOTE = ("Trusted: numpy/scipy (kv, gamma), the reference covariance (self-tested against its power "
-              "spectrum) and the documented geometry in mc/refmodels/fried_stencil.py. Not covered: "
-              "atmospheres/sizes outside the lattice, configurations whose construction raises LinAlgError "
+              "spectrum) and the documented geometry in mc/refmodels/fried_stencil.py (the Fried reference pixel is "
+              "found behaviourally). The working array is set through the private `_scrn` after calibrating that "
+              "protocol on the library under test; clauses whose instrumentation assumptions do not hold are skipped "
+              "and counted (cases_with_*_not_claimed in the notes), `A_mat`/`B_mat` are compared as observations only. "
+              "Not covered: atmospheres/sizes outside the lattice, configurations whose construction raises LinAlgError "
               "(counted), higher-than-second-order statistics (Gaussianity is inherited from the draws).")
